@@ -28,7 +28,9 @@ CONSTANTS DEPTH,  \* number of block boundaries (links)
           D,      \* maximum delay in ticks
           K,      \* elements fed
           TMAX,   \* time horizon
-          FIXTO   \* TRUE: as coded; FALSE: variant where a timed-out Start never re-arms its timeout
+          FIXTO,  \* TRUE: as coded; FALSE: variant where a timed-out Start never re-arms its timeout
+          BLIND   \* blocks whose Start receives WITHOUT a timeout ({} as coded; seeded/C18b: a two-input
+                  \* block whose left input has ended keeps receiving from the right one with recv(None))
 
 Links == 1..DEPTH          \* link i connects block i-1 to block i; block 0 is the source block
 NOTIME == 1000
@@ -41,7 +43,7 @@ Init ==
   /\ srcq = <<>>
   /\ buf = [i \in Links |-> <<>>] /\ lastSend = [i \in Links |-> 0]
   /\ ch = [i \in Links |-> <<>>]
-  /\ deadline = [i \in Links |-> D]          \* the first recv_timeout starts at time 0
+  /\ deadline = [i \in Links |-> IF i \in BLIND THEN NOTIME ELSE D]   \* the first recv_timeout starts at time 0
   /\ timedOut = [i \in Links |-> FALSE]
 
 (* Batcher::enqueue on link i: buffer, flush on size or on elapsed time; returns [buf, ch, last] *)
@@ -95,7 +97,7 @@ Recv(i) ==
        /\ UNCHANGED arrivedAt
   (* back in next(): the next wait is a recv_timeout(D) again (already_timed_out was reset) *)
   /\ timedOut' = [timedOut EXCEPT ![i] = FALSE]
-  /\ deadline' = [deadline EXCEPT ![i] = IF FIXTO \/ ~timedOut[i] THEN now + D ELSE NOTIME]
+  /\ deadline' = [deadline EXCEPT ![i] = IF i \notin BLIND /\ (FIXTO \/ ~timedOut[i]) THEN now + D ELSE NOTIME]
   /\ UNCHANGED <<now, nextId, fedAt, srcq>>
 
 (* the receive timeout of block i fires: FlushBatch travels down its chain, End flushes *)
